@@ -122,4 +122,263 @@ example : parseList (showList ["H".toList, "He".toList, "C".toList]) = ["H".toLi
 example : parseKV ':' (showKV ':' [("HE".toList, "He".toList), ("MG".toList, "Mg".toList)]) =
     some [("HE".toList, "He".toList), ("MG".toList, "Mg".toList)] := by decide
 
+/-! ### rate and ODE modifiers -/
+
+/-- trimmed and not empty: first and last character are not blanks (inner blanks are allowed: `2.0 * zeta`) -/
+def Trimmed (s : Str) : Prop := ∃ a z, s.head? = some a ∧ s.getLast? = some z ∧ isWs a = false ∧ isWs z = false
+
+theorem Trimmed.strip {s : Str} (h : Trimmed s) : strip s = s := by
+  obtain ⟨a, z, h1, h2, ha, hz⟩ := h
+  exact strip_of_head_last s a z h1 h2 ha hz
+
+theorem Trimmed.ne_nil {s : Str} (h : Trimmed s) : s ≠ [] := by
+  obtain ⟨a, _, h1, _⟩ := h
+  intro e; subst e; simp at h1
+
+/-- what a rate-modifier entry must look like to be carried: key and value trimmed, free of `,` and `:` -/
+def RateOK (p : Str × Str) : Prop :=
+  Trimmed p.1 ∧ Trimmed p.2 ∧ ',' ∉ p.1 ∧ ',' ∉ p.2 ∧ ':' ∉ p.1 ∧ ':' ∉ p.2
+
+theorem trimmed_piece (p : Str × Str) (h : RateOK p) : Trimmed (p.1 ++ ':' :: p.2) := by
+  obtain ⟨⟨a, _, h1, _, ha, _⟩, ⟨_, z, _, h2, _, hz⟩, _⟩ := h
+  refine ⟨a, z, ?_, ?_, ha, hz⟩
+  · cases hp : p.1 with
+    | nil => rw [hp] at h1; simp at h1
+    | cons x xs => rw [hp] at h1; simpa using h1
+  · rw [List.getLast?_append_of_ne_nil _ (by simp)]
+    cases hp : p.2 with
+    | nil => rw [hp] at h2; simp at h2
+    | cons x xs => rw [hp] at h2; rw [List.getLast?_cons_of_ne_nil (by simp)]; exact h2
+
+theorem parseRatePiece_show (p : Str × Str) (h : RateOK p) : parseRatePiece (p.1 ++ ':' :: p.2) = some p := by
+  unfold parseRatePiece
+  obtain ⟨h1, h2, _, _, h5, h6⟩ := h
+  rw [splitOnC_append_sep ':' p.1 _ h5, splitOnC_noSep ':' _ h6]
+  simp only [h1.strip, h2.strip]
+
+/-- **C20 (rate modifiers).** A non-empty table of rate modifiers written as `idx:expr,idx:expr,…` is read back as exactly
+    the same sequence of entries – for every expression that is trimmed and free of `,` and `:` (blanks inside are kept). -/
+theorem parseRateMod_show (pairs : List (Str × Str)) (hne : pairs ≠ []) (h : ∀ p ∈ pairs, RateOK p) :
+    parseRateMod [showRateMod pairs] = some pairs := by
+  unfold parseRateMod showRateMod
+  simp only [List.flatMap_cons, List.flatMap_nil, List.append_nil]
+  have hnc : ∀ f ∈ pairs.map (fun p => p.1 ++ ':' :: p.2), ',' ∉ f := by
+    intro f hf
+    obtain ⟨p, hp, rfl⟩ := List.mem_map.mp hf
+    obtain ⟨_, _, h3, h4, _⟩ := h p hp
+    intro hm
+    rcases List.mem_append.mp hm with e | e
+    · exact h3 e
+    · rcases List.mem_cons.mp e with e | e
+      · exact absurd e (by decide)
+      · exact h4 e
+  rw [splitOnC_joinC ',' _ (by simpa using hne) hnc]
+  have : ∀ (l : List (Str × Str)), (∀ p ∈ l, RateOK p) →
+      ((l.map (fun p => p.1 ++ ':' :: p.2)).map strip).mapM parseRatePiece = some l := by
+    intro l hl
+    induction l with
+    | nil => rfl
+    | cons q qs ih =>
+      simp only [List.map_cons, List.mapM_cons]
+      rw [(trimmed_piece q (hl q (by simp))).strip, parseRatePiece_show q (hl q (by simp)),
+        ih (fun p hp => hl p (List.mem_cons_of_mem _ hp))]
+      rfl
+  exact this pairs h
+
+/-- a piece without `:` is refused (IndexError in the code), an expression containing `,` is cut there:
+    both are outside the quantifier of the round trip -/
+theorem rate_piece_without_colon : parseRateMod ["3".toList] = none := by decide
+theorem rate_value_with_comma : parseRateMod ["3:pow(Tgas, 0.5)".toList] = none := by decide
+
+theorem dictSet_fresh (d : List (Str × Str)) (k v : Str) (h : ∀ p ∈ d, p.1 ≠ k) : dictSet d k v = d ++ [(k, v)] := by
+  unfold dictSet
+  have : d.any (fun p => p.1 == k) = false := by
+    rw [List.any_eq_false]; intro p hp; simpa using h p hp
+  simp [this]
+
+/-- with distinct keys the dictionary is the sequence itself -/
+theorem dictOf_nodup (ps : List (Str × Str)) (h : (ps.map (·.1)).Nodup) : dictOf ps = ps := by
+  unfold dictOf
+  have : ∀ (acc l : List (Str × Str)), ((acc ++ l).map (·.1)).Nodup →
+      l.foldl (fun d p => dictSet d p.1 p.2) acc = acc ++ l := by
+    intro acc l
+    induction l generalizing acc with
+    | nil => intro _; simp
+    | cons q qs ih =>
+      intro hnd
+      simp only [List.foldl_cons]
+      have hfresh : ∀ p ∈ acc, p.1 ≠ q.1 := by
+        intro p hp e
+        rw [List.map_append, List.map_cons] at hnd
+        have := (List.nodup_append.mp hnd).2.2 (p.1) (List.mem_map_of_mem hp) (q.1) (by simp)
+        exact this e
+      rw [dictSet_fresh acc q.1 q.2 hfresh]
+      have := ih (acc ++ [(q.1, q.2)]) (by simpa [List.append_assoc] using hnd)
+      simpa [List.append_assoc] using this
+  simpa using this [] ps (by simpa using h)
+
+/-- what an ODE-modifier term must look like: the target free of `:` and `;`, the factor free of `:` `,` `;`,
+    every dependency a blank-free, non-empty word without brackets and separators -/
+def DepOK (x : Str) : Prop := NoWs x ∧ x ≠ [] ∧ '[' ∉ x ∧ ']' ∉ x ∧ ',' ∉ x ∧ ':' ∉ x ∧ ';' ∉ x
+def TermOK (t : OdeTerm) : Prop :=
+  ':' ∉ t.key ∧ ';' ∉ t.key ∧ ':' ∉ t.fact ∧ ',' ∉ t.fact ∧ ';' ∉ t.fact ∧ ∀ x ∈ t.deps, DepOK x
+
+theorem not_mem_joinC (c s : Char) (hcs : c ≠ s) (fs : List Str) (h : ∀ f ∈ fs, c ∉ f) : c ∉ joinC s fs := by
+  induction fs with
+  | nil => simp [joinC]
+  | cons f fs ih =>
+    cases fs with
+    | nil => simpa [joinC] using h f (by simp)
+    | cons g rest =>
+      simp only [joinC]
+      intro hm
+      rcases List.mem_append.mp hm with e | e
+      · exact h f (by simp) e
+      · rcases List.mem_cons.mp e with e | e
+        · exact hcs e
+        · exact ih (fun x hx => h x (List.mem_cons_of_mem _ hx)) e
+
+theorem dropBrackets_clean (s : Str) (h1 : '[' ∉ s) (h2 : ']' ∉ s) : dropBrackets s = s := by
+  unfold dropBrackets
+  apply List.filter_eq_self.mpr
+  intro c hc
+  have a : c ≠ '[' := fun e => h1 (e ▸ hc)
+  have b : c ≠ ']' := fun e => h2 (e ▸ hc)
+  simp [a, b]
+
+theorem dropBrackets_wrapped (s : Str) (h1 : '[' ∉ s) (h2 : ']' ∉ s) : dropBrackets ('[' :: (s ++ [']'])) = s := by
+  have := dropBrackets_clean s h1 h2
+  unfold dropBrackets at *
+  simp [List.filter_append, this]
+
+theorem head?_joinC (c : Char) (f : Str) (fs : List Str) (hne : f ≠ []) : (joinC c (f :: fs)).head? = f.head? := by
+  cases fs with
+  | nil => simp [joinC]
+  | cons g rest =>
+    simp only [joinC]
+    cases f with
+    | nil => exact absurd rfl hne
+    | cons a b => simp
+
+theorem strip_joinC_deps (deps : List Str) (h : ∀ x ∈ deps, DepOK x) : strip (joinC ' ' deps) = joinC ' ' deps := by
+  cases deps with
+  | nil => decide
+  | cons f fs =>
+    have hf := h f (by simp)
+    obtain ⟨a, ha⟩ : ∃ a, f.head? = some a := by
+      cases f with
+      | nil => exact absurd rfl hf.2.1
+      | cons a b => exact ⟨a, rfl⟩
+    have hl : ∃ g, (f :: fs).getLast? = some g := ⟨(f :: fs).getLast (by simp), List.getLast?_eq_some_getLast (by simp)⟩
+    obtain ⟨g, hg⟩ := hl
+    have hgm : g ∈ f :: fs := List.mem_of_getLast? hg
+    have hgo := h g hgm
+    obtain ⟨z, hz⟩ : ∃ z, g.getLast? = some z := by
+      cases hgl : g.getLast? with
+      | none => exact absurd (List.getLast?_eq_none_iff.mp hgl) hgo.2.1
+      | some z => exact ⟨z, rfl⟩
+    apply strip_of_head_last _ a z
+    · rw [head?_joinC ' ' f fs hf.2.1]; exact ha
+    · rw [getLast?_joinC ' ' (f :: fs) g hg hgo.2.1]; exact hz
+    · exact hf.1 a (List.mem_of_head? ha)   -- first character of a blank-free word
+    · exact hgo.1 z (List.mem_of_getLast? hz)
+
+theorem parseOdeTerm_show (t : OdeTerm) (h : TermOK t) : parseOdeTerm (showOdeBody t) = some t := by
+  obtain ⟨hk1, _, hf1, hf2, _, hd⟩ := h
+  unfold parseOdeTerm showOdeBody
+  have hj1 : ':' ∉ joinC ' ' t.deps := not_mem_joinC ':' ' ' (by decide) _ (fun x hx => (hd x hx).2.2.2.2.2.1)
+  have hj2 : ',' ∉ joinC ' ' t.deps := not_mem_joinC ',' ' ' (by decide) _ (fun x hx => (hd x hx).2.2.2.2.1)
+  have hj3 : '[' ∉ joinC ' ' t.deps := not_mem_joinC '[' ' ' (by decide) _ (fun x hx => (hd x hx).2.2.1)
+  have hj4 : ']' ∉ joinC ' ' t.deps := not_mem_joinC ']' ' ' (by decide) _ (fun x hx => (hd x hx).2.2.2.1)
+  have hv : ':' ∉ t.fact ++ ',' :: '[' :: (joinC ' ' t.deps ++ [']']) := by
+    intro hm
+    rcases List.mem_append.mp hm with e | e
+    · exact hf1 e
+    · simp only [List.mem_cons, List.mem_append, List.mem_nil_iff, or_false] at e
+      rcases e with e | e | e | e
+      · exact absurd e (by decide)
+      · exact absurd e (by decide)
+      · exact hj1 e
+      · exact absurd e (by decide)
+  rw [splitOnC_append_sep ':' t.key _ hk1, splitOnC_noSep ':' _ hv]
+  have hr : ',' ∉ '[' :: (joinC ' ' t.deps ++ [']']) := by
+    intro hm
+    simp only [List.mem_cons, List.mem_append, List.mem_nil_iff, or_false] at hm
+    rcases hm with e | e | e
+    · exact absurd e (by decide)
+    · exact hj2 e
+    · exact absurd e (by decide)
+  simp only []
+  rw [splitOnC_append_sep ',' t.fact _ hf2, splitOnC_noSep ',' _ hr]
+  simp only []
+  rw [dropBrackets_wrapped _ hj3 hj4, strip_joinC_deps _ hd, words_joinC_space _ (fun f hf => ⟨(hd f hf).1, (hd f hf).2.1⟩)]
+
+theorem showOdeBody_ne_nil (t : OdeTerm) : showOdeBody t ≠ [] := by
+  unfold showOdeBody; simp
+
+theorem showOdeBody_noSemi (t : OdeTerm) (h : TermOK t) : ';' ∉ showOdeBody t := by
+  obtain ⟨_, hk2, _, _, hf3, hd⟩ := h
+  unfold showOdeBody
+  have hj : ';' ∉ joinC ' ' t.deps := not_mem_joinC ';' ' ' (by decide) _ (fun x hx => (hd x hx).2.2.2.2.2.2)
+  intro hm
+  simp only [List.mem_cons, List.mem_append, List.mem_nil_iff, or_false] at hm
+  rcases hm with e | e | e | e | e | e | e
+  · exact hk2 e
+  · exact absurd e (by decide)
+  · exact hf3 e
+  · exact absurd e (by decide)
+  · exact absurd e (by decide)
+  · exact hj e
+  · exact absurd e (by decide)
+
+/-- **C20 (ODE modifiers, one occurrence).** Terms written as `target:factor,[dep dep …];` – any number of them in one option
+    string – are read back as exactly the same terms in the same order. -/
+theorem parseOdeOcc_show (ts : List OdeTerm) (h : ∀ t ∈ ts, TermOK t) :
+    parseOdeOcc (splitOnC ';' (showOdeOcc ts)) = some ts := by
+  induction ts with
+  | nil => rfl
+  | cons t ts ih =>
+    have ht := h t (by simp)
+    simp only [showOdeOcc]
+    rw [splitOnC_append_sep ';' _ _ (showOdeBody_noSemi t ht)]
+    simp only [parseOdeOcc]
+    have hne : (showOdeBody t).isEmpty = false := by
+      cases hb : showOdeBody t with
+      | nil => exact absurd hb (showOdeBody_ne_nil t)
+      | cons a b => rfl
+    rw [hne, parseOdeTerm_show t ht, ih (fun x hx => h x (List.mem_cons_of_mem _ hx))]
+    rfl
+
+/-- **C20 (ODE modifiers, several occurrences).** However the terms are distributed over repeated `--ode-modifier` options,
+    the terms read are the concatenation, in order. -/
+theorem parseOdeMod_show (occs : List (List OdeTerm)) (h : ∀ ts ∈ occs, ∀ t ∈ ts, TermOK t) :
+    parseOdeMod (occs.map showOdeOcc) = some occs.flatten := by
+  unfold parseOdeMod
+  have : (occs.map showOdeOcc).mapM (fun l => parseOdeOcc (splitOnC ';' l)) = some occs := by
+    induction occs with
+    | nil => rfl
+    | cons o os ih =>
+      simp only [List.map_cons, List.mapM_cons]
+      rw [parseOdeOcc_show o (h o (by simp)), ih (fun ts hts => h ts (List.mem_cons_of_mem _ hts))]
+      rfl
+  rw [this]; rfl
+
+/-- the grouping does not depend on where the option strings were cut -/
+theorem group_independent_of_cuts (occs occs' : List (List OdeTerm)) (he : occs.flatten = occs'.flatten)
+    (h : ∀ ts ∈ occs, ∀ t ∈ ts, TermOK t) (h' : ∀ ts ∈ occs', ∀ t ∈ ts, TermOK t) :
+    (parseOdeMod (occs.map showOdeOcc)).map groupTerms = (parseOdeMod (occs'.map showOdeOcc)).map groupTerms := by
+  rw [parseOdeMod_show occs h, parseOdeMod_show occs' h', he]
+
+/-- an empty piece ends the occurrence: terms after `;;` are dropped silently (the code says `break`) -/
+theorem empty_piece_ends : parseOdeOcc (splitOnC ';' "A:f,[B];;C:g,[D];".toList) =
+    some [⟨"A".toList, "f".toList, ["B".toList]⟩] := by decide
+
+/-! non-vacuity -/
+example : parseRateMod [showRateMod [("3".toList, "2.0 * zeta".toList), ("7".toList, "0.0".toList)]] =
+    some [("3".toList, "2.0 * zeta".toList), ("7".toList, "0.0".toList)] := by decide
+example : parseOdeMod [showOdeOcc [⟨"H2".toList, "0.5 * hloss".toList, ["H".toList]⟩, ⟨"H".toList, "-hloss".toList, ["H".toList, "H2".toList]⟩]] =
+    some [⟨"H2".toList, "0.5 * hloss".toList, ["H".toList]⟩, ⟨"H".toList, "-hloss".toList, ["H".toList, "H2".toList]⟩] := by decide
+example : groupTerms [⟨"H".toList, "a".toList, []⟩, ⟨"G".toList, "b".toList, []⟩, ⟨"H".toList, "c".toList, [["x"].head!.toList]⟩] =
+    [("H".toList, ["a".toList, "c".toList], [[], ["x".toList]]), ("G".toList, ["b".toList], [[]])] := by decide
+
 end Naunet.C20
